@@ -121,8 +121,10 @@ class KDMixWrapper(KDWrapper):
                 raise NotImplementedError
 
             # mixup
+            # not in-place on what the dataset returned: x/x2 can be (views of) the tensors the dataset stores
+            # (mixing them in-place would overwrite the dataset; with idx2 == idx x2 is x); clone keeps the dtype of x
             x_lamb = lamb.view(*[1] * x.ndim)
-            x.mul_(x_lamb).add_(x2.mul_(1. - x_lamb))
+            x = x.clone().mul_(x_lamb).add_(x2 * (1. - x_lamb))
             # not in-place: to_one_hot_vector returns a float label vector as is (an alias of the dataset's label)
             cls = cls * lamb + cls2 * (1. - lamb)
 
